@@ -337,6 +337,13 @@ def reproducible(ctx):
         # the caller goes on editing the list objects it passed as arguments: nothing of the sequence may follow
         if ctx.world.passed:
             for lst in ctx.world.passed:
+                if isinstance(lst, set):
+                    for q_ in ctx.world.qids:
+                        if q_ in lst and len(lst) > 1:
+                            lst.discard(q_)
+                            break
+                    lst.update(q_ for q_ in ctx.world.qids[-2:])
+                    continue
                 if lst:
                     lst[0] = ctx.world.qids[-1] if lst[0] != ctx.world.qids[-1] else ctx.world.qids[0]
                 lst.reverse()
@@ -436,6 +443,11 @@ def plan(tier, seed):
     plans.append((corner("unit8", prefix=[], qubits=3, container="keys", name="fresh-id-collections-given-as-dict-views", max_amp=20.0),
                   _alphabet(FRESH_CORE + [("declare", "k", "raman_local", ["q1"]), ("target", ["q0", "q1"], "l"), ("target_kw", ["q2"], "l"), ("slm_kw", ["q1", "q2"]),
                                           ("phase_shift", 1.0, ("q0",), "digital")], FRESH_FAULTS,
+                            {k: v for k, v in RO.items() if "draw" not in k}), 2 if tier == "quick" else 3))
+    # ... and as the caller's own SETS, which it goes on editing after the call
+    plans.append((corner("unit8", prefix=[], qubits=3, container="set", name="fresh-id-collections-given-as-sets", max_amp=20.0),
+                  _alphabet(FRESH_CORE + [("declare", "k", "raman_local", ["q1"]), ("target", ["q0", "q1"], "l"), ("target_kw", ["q2"], "l"), ("slm_kw", ["q1", "q2"]),
+                                          ("add", A.C52, "l")], FRESH_FAULTS,
                             {k: v for k, v in RO.items() if "draw" not in k}), 2 if tier == "quick" else 3))
     plans.append((corner("unit8", prefix=[], qubits=3, reusable=False, name="fresh-channels-not-reusable", max_amp=20.0),
                   _alphabet(FRESH_NR_CORE, FRESH_NR_FAULTS, {k: v for k, v in RO.items() if "draw" not in k}), 2))
